@@ -180,13 +180,16 @@ theorem plan_kinds (c : Ctx D) :
 /-- reapInternal's consolidating branch adds, in source order: checkpoint, CRC, RemoveAll in a
 loop over newerSet, RemoveAll in a loop over olderSet, write-meta, verify (under the noVerifyDB
 guard), rename; the remove-only branch a RemoveAll loop over olderSet; the plan is written to disk
-before it is executed. -/
+before it is executed — on EVERY path: reapInternal starts executing a plan in exactly two places,
+the resume branch (the plan was just read from REAP_PLAN) and the final return after the top-level
+WriteToFile; no branch (in particular not the remove-only one) executes a plan that is not on disk. -/
 theorem plan_shape_from_source :
     RqModel.Gen.PlanShapes.reapConsolidate =
       [("AddCheckpoint", ""), ("AddCalcCRC32", ""), ("AddRemoveAll", "newerSet"), ("AddRemoveAll", "olderSet"),
        ("AddWriteMeta", ""), ("AddVerifyDB", "if"), ("AddRename", "")] ∧
     RqModel.Gen.PlanShapes.reapRemoveOnly = [("AddRemoveAll", "olderSet")] ∧
-    RqModel.Gen.PlanShapes.reapWriteBeforeExecute = some true := by decide
+    RqModel.Gen.PlanShapes.reapWriteBeforeExecute = some true ∧
+    RqModel.Gen.PlanShapes.reapExecuteSites = ["resumes-plan-read-from-file", "after-plan-written"] := by decide
 
 /-! ### non-vacuity: a concrete store satisfying every hypothesis -/
 section Example
